@@ -3,7 +3,8 @@ CONSTANTS
   Space = "quick"
   Shapes <- ShapesOf
   FmtChoices <- Fmt01
-  Q <- QAB
+  DCtx <- DCAB
+  Prec = "most_common"
   CurSeq <- CS3
   InvNull = "skip"
   Mut = "none"
